@@ -94,7 +94,7 @@ pub fn run_generator(c: &Case) -> Result<String, String> {
     }
     let text = out.out();
     // the stdin / output-file path must give the same text
-    let outp = scratch.path("out.txt");
+    let outp = scratch.stale("out.txt");
     let mut args2 = vec![input.to_string_lossy().into_owned(), outp.to_string_lossy().into_owned()];
     if c.undirected {
         args2.push("--undirected".into());
